@@ -92,6 +92,25 @@ func (b *builder) poolFor(pick func() bool, mode int, wid int, skip map[int]bool
 	}
 }
 
+// group declares a well-formed transaction group of n small members (fresh tags from *tag on);
+// spec says what the header transaction pays (see buildGroup); returns the member instances.
+func (b *builder) group(n int, spec string, tag *int) []int {
+	first := len(b.insts)
+	ok := spec == "S" || spec == "S+"
+	var ids []int
+	for i := 0; i < n; i++ {
+		b.insts = append(b.insts, gInst{tag: *tag + i, key: 0, sig: true, fee: ok, chain: true, run: true, exp: "n"})
+		b.tags[*tag+i] = true
+		ids = append(ids, first+i)
+	}
+	if ok {
+		b.base[*tag] = first // the pool takes the packed group under the header member's hash
+	}
+	b.txl = append(b.txl, fmt.Sprintf("grp %d %d %s %d", first, n, spec, *tag))
+	*tag += n
+	return ids
+}
+
 // plain: a valid transfer of the genesis account, never expiring.
 func (b *builder) plain(tag int) int {
 	return b.tx(tag, 0, true, "n", true, true, true, "r", int64(1000+tag))
@@ -126,6 +145,7 @@ type bopt struct {
 	height        int // override when >= 0
 	sig0, root0   bool
 	state0        bool
+	rootF, stateF byte // 0, or how the declared root is wrong: 'e' empty, 's' short, 'l' long, 'z' zero
 	unknownParent int
 }
 
@@ -176,8 +196,15 @@ func (b *builder) blk(parent int, txs []int, o bopt) int {
 	if o.unknownParent == 0 && p.time > g.time {
 		chk = "t"
 	}
-	g.flags = b2s(!o.sig0) + b2s(!o.root0) + b2s(stateFlag) + chk
-	g.execOK = clean && !o.root0 && !o.state0
+	rf, sf := b2s(!o.root0), b2s(stateFlag)
+	if o.rootF != 0 {
+		rf = string(o.rootF)
+	}
+	if o.stateF != 0 {
+		sf = string(o.stateF)
+	}
+	g.flags = b2s(!o.sig0) + rf + sf + chk
+	g.execOK = clean && !o.root0 && !o.state0 && o.rootF == 0 && o.stateF == 0
 	b.blks[wid] = g
 	b.bll = append(b.bll, fmt.Sprintf("blk %d %d %d %d %d %d %s %s", wid, wid, g.parent, g.height, bits, g.time, txList(txs), g.flags))
 	return wid
